@@ -47,6 +47,8 @@ CHECK_DEADLOCK FALSE
     # register while a send that will garbage-collect is under way, sends after a collection, ...
     cases += gen(ctx, "{1, 2, 3}", "{1, 2}", 3, "num=%d" % n, 1)
     cases += gen(ctx, "{1, 2, 3}", "{1, 2}", 2, "num=%d" % n, 2)
+    # four listeners, one of them cancelled and not yet collected, registrations while a send is under way
+    cases += gen(ctx, "{1, 2, 3, 4}", "{1}", 2, "num=%d" % n, 1)
     seen, uniq = set(), []
     for c in cases:
         k = repr(c["sched"])
@@ -63,7 +65,7 @@ CHECK_DEADLOCK FALSE
         for i in range(60 if not thorough else 1500):
             storms.append({"mode": "storm", "res": res, "subs": i % 9, "writers": 1 + i % 3, "iter": i,
                            "sched": [], "nl": 0, "ns": 0, "maxSends": 0, "expect": {}})
-    allc = cases + storms
+    allc = storms + cases       # (storms first: a tree on which the forced behaviours drift en masse still gets them)
     for k, c in enumerate(allc):
         c["n"] = k + 1
     import subprocess
